@@ -113,6 +113,31 @@ def run(ctx):
                                 if oe and any(agg_sites_in(bt, x, "Err") for x in bt.reachable_from(list(oe["ok"]))):
                                     req = want
             role_tbl[vn] = req
+        # form-independent extraction: for every Err(..) construction, the parameter ids that can reach it (match arms or
+        # `matches!` summaries) and the role comparison that guards it
+        tests_, allv_ = enum_tests(prog, bt, PID)
+        errs_ = [i for (i, j, rv, line) in agg_sites(bt, r"^core::result::Result$", "Err")]
+        alt_tbl = {}
+        for e_ in errs_:
+            vs_ = enum_at(bt, tests_, allv_, e_)
+            want_ = None
+            for ci, ct in bt.calls():
+                m_ = re.search(r"PartialEq(<.*>)?>?::(ne|eq)$", callee(ct))
+                if not m_ or len(ct["dest"]) != 1 or len(ct["args"]) != 2:
+                    continue
+                pb_ = promoted_of(prog, bt, ct["args"][1]) or promoted_of(prog, bt, ct["args"][0])
+                role_ = None
+                if pb_ is not None:
+                    for (i2, j2, p2, rv2, l2) in pb_.assigns():
+                        if rv2[0] == "agg" and rv2[1]["k"] == "adt" and rv2[1]["adt"].endswith("role::Role"):
+                            role_ = rv2[1]["variant"]
+                if role_ and runs_only_when(bt, ct["dest"][0], m_.group(2) == "ne", e_):
+                    want_ = role_
+            if want_ and vs_ != allv_:
+                for v_ in vs_:
+                    alt_tbl[v_] = want_
+        if alt_tbl:
+            role_tbl = dict((vn, role_tbl.get(vn) or alt_tbl.get(vn)) for vn in set(role_tbl) | set(alt_tbl) | set(names.values()))
         ctx.stats["R2.role_table"] = {k: v for k, v in role_tbl.items() if v}
         for vn in sorted(names.values()):
             want = "Server" if vn in SERVER_ONLY else ("Client" if vn in CLIENT_ONLY else None)
